@@ -75,7 +75,7 @@ func gen(tier string, seed int64) []mon.Case {
 	}
 	for rep := 0; rep < ureps; rep++ {
 		for _, t := range []string{"system", "system-netconf", "system-ssh", "standard-shell", "standard-netconf", "telnet"} {
-			for _, how := range []string{"close", "peer-gone"} {
+			for _, how := range []string{"close", "peer-gone", "close-peer-hung"} {
 				for _, rs := range []int{81, 8192} {
 					add(Desc{Kind: "unblock", T: t, How: how, ReadSize: rs})
 				}
@@ -164,7 +164,8 @@ func init() {
 		Level: "exploration",
 		Rule: "Transfers: {system and system-netconf (pty + raw-mode stand-in), standard shell+pty, standard netconf subsystem, telnet} x read sizes {1 (small payloads), 81, 8192, 65535} x " +
 			"payload sizes {1, rs-1, rs, rs+1, 4095, 4096, 4097, 65537 (every ordered byte pair), 1 MiB} in both directions, PRNG write chunking/pauses in " +
-			"duplex, lockstep and up-then-down schedules; every transfer ends with Close(true) against the blocked reader. Unblock cases: Close(true) and peer-gone " +
+			"duplex, lockstep and up-then-down schedules; every transfer ends with Close(true) against the blocked reader. Every slice Transport.Read returns is also retained without copying and compared with a copy taken at read time after later reads. " +
+			"Unblock cases: Close(true), Close(true) against a peer that hangs (server stops processing the connection / child stopped), and peer-gone " +
 			"for the same transports plus the system transport with the real ssh client; re-open cycles (3 x Open/transfer/blocked read/Close on ONE Transport object, forced and " +
 			"unforced close; peer must see the end, the child must be gone). Silence after write: with socket timeouts of 300-1000 ms the peer stays silent for 1.5x / 3x the timeout after a client write, then sends (twice), reader parked in Read. " +
 			"Last words: the peer writes a tail (smaller / larger than the read size) and ends the session in an orderly way while nobody reads for 0.5-1 s; the whole tail must come out of Read before the error. Write-close-slow-peer (telnet, standard): 5 B .. 1 MiB written while the peer does not read, Close, then the peer reads to the end and must get every byte. " +
